@@ -97,24 +97,27 @@ PROPS = {
         "lean": ["Knut.Properties.C03", "Knut.Properties.C03Bound", "Knut.Properties.C03Bridge", "Knut.Properties.C03Window", "Knut.Properties.C03Report", "Knut.Properties.C03Command", "Knut.Properties.C03Modes", "Knut.Properties.C03Flows", "Knut.FactsAgree.TransProcess", "Knut.FactsAgree.TransQuery"],
         "level": "proof",
         "claim": "Proof + full correspondence + exact monitors. Spec.mtm (Spec/MTM.lean) = sum over commodities of summed quantity x Prices.normalize price of the declarations up to D, exact. "
-                 "Proved from the directives to the CELLS of the rendered table (C03_command_cell, Properties/C03Report.lean): for every cumulative valued report with per-account rows (no -m/--remap/filters/-s/--diff), "
-                 "all intervals, every window (--from/--to/--last), closing on or off, and every directive list whose postings arrive unvalued, the table contains the row of every A/L account with an insert, and its "
-                 "cell in the column of period end D is within Spec.stepBound x 1e-8 of Spec.mtm(D) - Spec.mtm(window start - 1); both values exist whenever the command succeeds; with nothing held on the eve of "
-                 "the window this is the property's sentence (C03_command_cell_abs). Spec.stepBound is an explicit function of the journal (C03_step_bound_closed_form: non-zero bookings on the position + days with a price "
-                 "declaration inside the window, per commodity other than V; C03_window_steps_le, C03_run_window_explicit). Below it: C03_run_window / C03_run_window_split (Balance.run for every window: inserts on (a,c) = "
-                 "Q_D p_D - Q_F p_F up to steps x 1e-8), C03_account_window, C03_run_mtm_bound, C03_mtm_bound(_window), C03_trunc_close, C03_telescope and the per-step facts of Properties/C03.lean. "
+                 "Proved from the directives to the CELLS of the rendered table for every valued report mode except a --commodity filter: (a) C03_command_cell (Properties/C03Report.lean): cumulative per-account rows, "
+                 "all intervals, every window (--from/--to/--last), closing on or off, every directive list whose postings arrive unvalued: the table contains the row of every A/L account with an insert and its "
+                 "cell in the column of period end D is within Spec.stepBound x 1e-8 of Spec.mtm(D) - Spec.mtm(window start - 1); both values exist whenever the command succeeds; C03_command_cell_abs (nothing held on the eve: the property's sentence). "
+                 "(b) Properties/C03Modes.lean: C03_command_cell_diff (--diff: |cell - (Spec.mtm(D_k) - Spec.mtm(D_k-1))| <= Spec.stepBound of the steps INSIDE the period), C03_command_cell_mapped (any -m level[:suffix][,regex], --remap, --account, "
+                 "cumulative or --diff: the cell of an A/L ROW r is within Spec.stepBoundOver x 1e-8 of Spec.mtmOver(S, D_k) - Spec.mtmOver(S, eve), S = Spec.sourceAccounts(rowSel f r) the journal's accounts mapped onto the row: sum of the accounts' exact values, bounds summed), "
+                 "C03_command_cell_show / _show_other (-s: one line per commodity, each cell within Spec.stepCountOver x 1e-8 of the change of Spec.mtmPosOver = summed quantity x normalised price of that commodity; a commodity without a line has that change within the bound of 0). "
+                 "(c) Properties/C03Flows.lean, the flow clause for EVERY income/expense/equity account, closing on or off, exact: C03_command_flow_cell (cumulative report: the cell of a non-A/L account other than Equity:Equity is "
+                 "-(Spec.flowAt(b) - (sum over the A/L accounts a mirrored on b (Income:<path of a>) of (shown(a,D_k) - shown(a,F_k)) - Spec.flowOver)) over (F_k, D_k], F_k = eve of the window without closing, eve of the PERIOD with closing: "
+                 "bookings at the price of their own day, minus the value adjustments of the mirrored accounts; with closing every column shows its own period because the valued closing transfers moved the earlier ones to Equity:Equity), "
+                 "C03_gain_delta_noclose, C03_close_period (closing run vs run without closing: same A/L inserts, closable account: cumulative(D) - cumulative(s-1) of the run without closing), C03_command_row_shows, C03_equity_equity_residual. "
+                 "Spec.stepBound is an explicit function of the journal (C03_step_bound_closed_form; C03_window_steps_le, C03_run_window_explicit). Below: C03_run_window / C03_run_window_split, C03_account_window, C03_run_mtm_bound, C03_mtm_bound(_window), C03_trunc_close, C03_telescope and the per-step facts of Properties/C03.lean. "
                  "Properties/C03Command.lean: C03_command_missing_price (a booking in a commodity other than V without a price on or before its day: BalanceCmd.run ends in error - or in the partition panic that precedes "
-                 "processing - never in ok stdout; all flags), C03_gain_mirrors_adjustments (the zero-quantity postings on Income:<path of a> against a total -(value on (a,c) - sum of booked values), exactly, one report insert "
-                 "per posting: C03_inserts_are_postings), C03_command_flow_cell_noclose_partial (--close=false: the row of an account that is neither A/L nor below Income shows exactly -Spec.flowAt: every booking valued at "
-                 "the price of its own day). Open: --diff and mapped rows; the flow clause at cell level with --close and for accounts below Income. On every run the driver evaluates Spec.mtm, Spec.stepBound, Spec.flowAt "
-                 "exactly and the harness compares them with the cells of the REAL `knut balance -v V --digits 10` report (A/L cells with the proved bound, no slack; expense/equity and Income:<path> cells exactly for "
-                 "--close=false); valued reports are also compared byte for byte with the pipeline model. Known finding: with --from after a position was acquired the report shows the value change inside the window, "
-                 "not the absolute mark-to-market (design behaviour) - which is what C03_command_cell states.",
+                 "processing - never in ok stdout; all flags), C03_gain_mirrors_adjustments, C03_inserts_are_postings. Open: a --commodity filter on mapped rows; the flow cells of a --diff report with closing and of the first column under --close with --last n. "
+                 "On every run the driver evaluates Spec.mtm / mtmOver / mtmPosOver, the step bounds and Spec.flowAt exactly and the harness compares them with the cells of the REAL `knut balance -v V --digits 10` report: stream valued (per-account rows: A/L cells with the proved bound, no slack; "
+                 "every expense/equity/Income:<path> cell exactly, closing off AND on), stream modes (-m, --remap, --account, -s, --diff: every A/L row and commodity line with the proved summed bound); valued reports are also compared byte for byte with the pipeline model. "
+                 "Known finding: with --from after a position was acquired the report shows the value change inside the window, not the absolute mark-to-market (design behaviour) - which is what C03_command_cell states.",
         "note": "Trusted: Lean kernel; axioms propext, Classical.choice, Quot.sound; price normalisation is C12's model (Knut.Model.Prices); text-table parsing of the harness (indentation -> account path); the rendering of a numeric cell to text is C17's theorem.",
         "rule": "journals with price histories (sparse/daily redeclarations, direct, inverse and chained declarations, an eighth with some declarations dropped so that valuation must fail), "
-                "position histories with sign changes and liabilities, many-decimal quantities; flags: -v V, all intervals, --from/--to/--last, --close on/off, --digits 10. "
-                "class = (outcome, flag signature, size bucket).",
-        "assumptions": ["no mapping/filters/--diff in this check's flag vectors (cells are then per-account cumulative values)"],
+                "position histories with sign changes and liabilities, many-decimal quantities; stream valued: -v V, all intervals, --from/--to/--last, --close on/off, --digits 10; stream modes: additionally "
+                "-m level[:suffix][,regex] (1-2 rules), --remap, --account, -s, --diff. class = (outcome, flag signature, size bucket).",
+        "assumptions": ["no --commodity filter in this check's flag vectors (the filtered sum of positions is not assembled into a theorem)"],
     },
     "C09": {
         "lean": ["Knut.Properties.C09", "Knut.Properties.C09Decimal", "Knut.Properties.C09Text", "Knut.Properties.C09Journal", "Knut.Properties.C09Cmd", "Knut.FactsAgree.TransTransaction"],
@@ -132,7 +135,7 @@ PROPS = {
         "assumptions": [],
     },
     "C02": {
-        "lean": ["Knut.Properties.C02", "Knut.Properties.C02Close", "Knut.Properties.C02Command", "Knut.FactsAgree.TransProcess", "Knut.FactsAgree.TransQuery"],
+        "lean": ["Knut.Properties.C02", "Knut.Properties.C02Close", "Knut.Properties.C02Command", "Knut.FactsAgree.TransProcess", "Knut.FactsAgree.TransQuery", "Knut.FactsAgree.TransAmountsSum"],
         "level": "proof",
         "claim": "Spec.ledgerEntries (Spec/Ledger.lean) defines the report independently of the pipeline: window bookings mapped/filtered/aligned plus, with closing, the transfer of "
                  "each income/expense/equity total booked in [previous closing day, s) to Equity:Equity at every shown period start. Proved for all journals and flags: C02_noclose (without "
@@ -334,7 +337,7 @@ PROPS = {
         "timeout": {"quick": 1200, "thorough": 5400},
     },
     "C17": {
-        "lean": ["Knut.Properties.C17", "Knut.FactsAgree.TransTable"],
+        "lean": ["Knut.Properties.C17", "Knut.FactsAgree.TransTable", "Knut.FactsAgree.TransAmountsSum"],
         "level": "proof",
         "claim": "Lean theorems over the model of lib/common/table (TextRenderer.Render incl. both width passes and the panic outcomes, numToString, addThousandsSep, "
                  "CSVRenderer.Render with encoding/csv quoting), for all tables whose rows have a common number n>=1 of cells with non-negative indents and no line breaks, "
